@@ -25,6 +25,10 @@ func checkC03(c *Ctx) {
 	ruleResponseTokenCoverage(c, "C03.c")
 	ruleBracketBeforeSection(c, "C03.d")
 	ruleServerModeProvenance(c, "C03.e")
+	c.rule("C03.g", "recursive response writers pass their mode parameters through unchanged", 3)
+	ruleModePassThrough(c, "C03.g")
+	c.rule("C03.h", "server-side option defaulting depends only on the options the client sent", 4)
+	ruleOptionDefaulting(c, "C03.h")
 }
 
 // responseStructs: data structs (package imap) reachable from the results of
@@ -543,4 +547,170 @@ func onlyBehindUnissuedFlag(p *Program, fn *ssa.Function, reach map[*ssa.Functio
 		}
 	}
 	return true
+}
+
+// ruleModePassThrough (C03.g): inside a recursion cycle of response writers, a
+// mode parameter (same name and type in caller and callee) is handed on
+// unchanged: a nested structure is written in the same mode as its parent.
+func ruleModePassThrough(c *Ctx, rule string) {
+	p := c.P
+	g := buildModGraph(p, p.VTA(), nil)
+	n := 0
+	for _, comp := range g.sccs() {
+		in := map[*ssa.Function]bool{}
+		rel := false
+		for _, f := range comp {
+			in[f] = true
+			if pkgPathOf(f) == modPath+"/imapserver" && f.Synthetic == "" {
+				rel = true
+			}
+		}
+		if !rel {
+			continue
+		}
+		for _, f := range comp {
+			if f.Blocks == nil || f.Synthetic != "" {
+				continue
+			}
+			allInstrs(f, func(i ssa.Instruction) {
+				call, ok := i.(*ssa.Call)
+				if !ok {
+					return
+				}
+				cal := staticCallee(call)
+				if cal == nil || !in[cal] {
+					return
+				}
+				for qi, q := range cal.Params {
+					bt, isBasic := q.Type().Underlying().(*types.Basic)
+					if !isBasic || bt.Info()&types.IsBoolean == 0 {
+						continue // integers on a cycle are depth counters (they must change), not modes
+					}
+					for _, pf := range f.Params {
+						if pf.Name() != q.Name() || !types.Identical(pf.Type(), q.Type()) || qi >= len(call.Call.Args) {
+							continue
+						}
+						n++
+						arg := call.Call.Args[qi]
+						key := fmt.Sprintf("%s→%s:%s", fnKey(f), fnKey(cal), q.Name())
+						if _, done := c.seen[rule+"|"+key]; done {
+							key += fmt.Sprintf("#%d", countKey(c, rule, key)+1)
+						}
+						c.check(arg == ssa.Value(pf) || paramOf(arg) == pf, rule, key, call.Pos(), "the mode parameter is passed on unchanged",
+							"a nested structure is written with a different "+q.Name()+" mode than its parent (a constant or another value is passed): data the backend supplied for the nested parts is silently omitted or altered")
+					}
+				}
+			})
+		}
+	}
+	if n == 0 {
+		c.unresolvedRoot("mode parameters in recursive response writers")
+	}
+}
+
+// Defaulting of an option on the server that legitimately depends on
+// something other than the options themselves.
+var allowedDefaultingDeps = map[string]string{
+	"FetchOptions.UID←numKind": "UID FETCH implies the UID item (RFC 9051 6.4.9)",
+}
+
+// ruleOptionDefaulting (C03.h): when a handler fills in a default for an option
+// (a constant stored into an *Options field outside the keyword switches), the
+// decision depends only on the options the client sent, not on connection
+// modes: otherwise the response form and the requested items can disagree.
+func ruleOptionDefaulting(c *Ctx, rule string) {
+	p := c.P
+	n := 0
+	tbl, _, _ := dispatchTable(c)
+	handlers := map[*ssa.Function]bool{}
+	for _, dc := range tbl {
+		if dc.handler != nil {
+			if f := p.SSA.FuncValue(dc.handler); f != nil {
+				handlers[f] = true
+			}
+		}
+	}
+	for fn := range handlers {
+		pd := postDominators(fn)
+		allInstrs(fn, func(i ssa.Instruction) {
+			st, ok := i.(*ssa.Store)
+			if !ok {
+				return
+			}
+			r, ok := fieldOf(st.Addr)
+			if !ok || r.Owner == nil || !strings.HasSuffix(r.Owner.Obj().Name(), "Options") || r.Owner.Obj().Pkg().Path() != modPath {
+				return
+			}
+			if _, isConst := st.Val.(*ssa.Const); !isConst {
+				return
+			}
+			n++
+			var foreign []string
+			for x := range transitiveDeps(fn, pd, st.Block()) {
+				ifi, isIf := x.Instrs[len(x.Instrs)-1].(*ssa.If)
+				if !isIf {
+					continue
+				}
+				// conditions made of this struct's fields, or failure tests (early error returns), are fine
+				flds := fieldsInCond(ifi.Cond, map[ssa.Value]bool{})
+				own := false
+				for _, f := range flds {
+					if f.Owner == r.Owner {
+						own = true
+					}
+				}
+				if own {
+					continue
+				}
+				isErrTest := false
+				for _, a := range atomsOf(ifi.Cond, true) {
+					if a.Nil != 0 {
+						isErrTest = true
+					}
+					if cl, _ := callOf(a.V); cl != nil {
+						isErrTest = true // Expect*/checkState results
+					}
+				}
+				if isErrTest {
+					continue
+				}
+				// what does the condition read?
+				desc := "?"
+				if bo, ok := ifi.Cond.(*ssa.BinOp); ok {
+					if pp := paramOf(bo.X); pp != nil {
+						desc = pp.Name()
+					} else if ld, ok := bo.X.(*ssa.UnOp); ok {
+						if al, ok := ld.X.(*ssa.Alloc); ok {
+							desc = al.Comment
+						}
+					}
+				} else if ld, ok := ifi.Cond.(*ssa.UnOp); ok {
+					if al, ok := ld.X.(*ssa.Alloc); ok {
+						desc = al.Comment
+					}
+					if in, ok := ld.X.(*ssa.UnOp); ok {
+						if al, ok := in.X.(*ssa.Alloc); ok {
+							desc = al.Comment
+						}
+					}
+				} else if ph, ok := ifi.Cond.(*ssa.Phi); ok {
+					desc = ph.Comment
+				}
+				foreign = append(foreign, desc)
+			}
+			foreign = uniq(foreign)
+			key := fmt.Sprintf("%s:default %s.%s", fnKey(fn), r.Owner.Obj().Name(), r.Field.Name())
+			var bad []string
+			for _, d := range foreign {
+				if _, ok := allowedDefaultingDeps[r.Owner.Obj().Name()+"."+r.Field.Name()+"←"+d]; !ok {
+					bad = append(bad, d)
+				}
+			}
+			c.check(len(bad) == 0, rule, key, st.Pos(), "the default depends only on the options the client sent"+map[bool]string{true: " (and the documented " + strings.Join(foreign, ",") + ")", false: ""}[len(foreign) > 0],
+				fmt.Sprintf("the default for %s.%s is applied only under a condition on {%s}: in the other mode the option stays unset, the backend's results are computed but the writer omits them", r.Owner.Obj().Name(), r.Field.Name(), strings.Join(bad, ",")))
+		})
+	}
+	if n == 0 {
+		c.unresolvedRoot("option defaulting stores in the handlers")
+	}
 }
